@@ -563,10 +563,13 @@ package swap
 //@ assigns nothing
 
 //@ func (*SwapService).lockRequestedSwap
-//@ property C09 C10
+//@ property C09 C10 C11
 //@ forall k0 string
 //@ requires s != nil && fsm != nil && s.activeSwaps != nil && s.swapServices != nil
 //@ ensures @C09 known-id-refused: (uf("idStored", true, swapId) || old(has(s.activeSwaps, swapId))) ==> result != nil
+// C11: a requested swap is locked in (and then started) only after the handler's checks
+//@ requires @C11,in:message,in:peerId premium-within-limit: premiumOf(peerId, ite(message.Network == "", premium.LBTC, premium.BTC), ite(fsm.Type == SWAPTYPE_IN, premium.SwapIn, premium.SwapOut), message.Amount) <= message.PremiumLimit
+//@ requires @C11,in:message,in:peerId fits-channel: (fsm.Type == SWAPTYPE_IN ==> ghost.spendable >= message.Amount*1000) && (fsm.Type == SWAPTYPE_OUT ==> ghost.receivable >= message.Amount*1000)
 //@ ensures @C10 one-per-channel: (result == nil && old(has(s.activeSwaps, k0))) ==> old(s.activeSwaps[k0].Data.GetScidInBoltFormat()) != strings.ReplaceAll(channelId, ":", "x")
 //@ ensures @C09,C10 refused-unchanged: result != nil ==> (has(s.activeSwaps, k0) == old(has(s.activeSwaps, k0)) && s.activeSwaps[k0] == old(s.activeSwaps[k0]))
 //@ ensures @C10 inserted: result == nil ==> (has(s.activeSwaps, swapId) && s.activeSwaps[swapId] == fsm)
@@ -622,7 +625,8 @@ package swap
 //@ interface LightningClient.Implementation
 //@ assigns nothing
 //@ interface LightningClient.ReceivableMsat
-//@ assigns nothing
+//@ ensures result1 == nil ==> ghost.receivable == result0
+//@ assigns ghost.receivable
 //@ interface LightningClient.ProbePayment
 //@ assigns nothing
 
@@ -656,7 +660,7 @@ package swap
 //@ requires @C09 sender-is-counterparty: has(s.activeSwaps, swapId.String()) && s.activeSwaps[swapId.String()].Data.PeerNodeId == ghost.msgPeer
 
 //@ func (*SwapService).OnSwapOutRequestReceived
-//@ property C09 C10
+//@ property C09 C10 C11
 //@ forall k0 string
 //@ requires service: s != nil && s.swapServices != nil && s.activeSwaps != nil
 //@ requires message: message != nil
@@ -666,7 +670,7 @@ package swap
 //@ ensures @C09 others-untouched: k0 != old(swapId.String()) ==> (has(s.activeSwaps, k0) == old(has(s.activeSwaps, k0)) && s.activeSwaps[k0] == old(s.activeSwaps[k0]))
 
 //@ func (*SwapService).OnSwapInRequestReceived
-//@ property C09 C10
+//@ property C09 C10 C11
 //@ forall k0 string
 //@ requires service: s != nil && s.swapServices != nil && s.activeSwaps != nil
 //@ requires message: message != nil
@@ -679,3 +683,56 @@ package swap
 // change it, so calls that cannot reach them leave it unchanged (checked by an
 // SSA scan plus call-graph reachability; see govc/encaps.go).
 //@ encapsulated @C09,C10 SwapService.activeSwaps writers (*SwapService).lockSwap (*SwapService).RemoveActiveSwap NewSwapService
+
+// ---------------------------------------------------------------------------
+// C11: a request is admitted (the create state's action succeeds, so an
+// agreement is built) only if every policy condition holds
+// ---------------------------------------------------------------------------
+//@ ghost pNewSwaps bool
+//@ ghost pMinMsat uint64
+//@ ghost walletBalance uint64
+//@ ghost receivable uint64
+
+//@ interface Policy.NewSwapsAllowed
+//@ ensures result == ghost.pNewSwaps
+//@ assigns nothing
+//@ interface Policy.GetMinSwapAmountMsat
+//@ ensures result == ghost.pMinMsat
+//@ assigns nothing
+//@ interface Policy.IsPeerAllowed
+//@ ensures result == uf("peerAllowed", true, peer)
+//@ assigns nothing
+//@ interface Policy.IsPeerSuspicious
+//@ ensures result == uf("peerSuspicious", true, peer)
+//@ assigns nothing
+//@ interface Wallet.GetAsset
+//@ ensures @in:swap result == uf("walletAsset", "", swap.GetChain())
+//@ assigns nothing
+//@ interface Wallet.GetNetwork
+//@ ensures @in:swap result == uf("walletNetwork", "", swap.GetChain())
+//@ assigns nothing
+//@ interface Wallet.GetOnchainBalance
+//@ ensures result1 == nil ==> ghost.walletBalance == result0
+//@ assigns ghost.walletBalance
+//@ interface RequestedSwapsStore.Add
+//@ assigns nothing
+
+//@ table getSwapInReceiverStates set Admission State_SwapInReceiver_CreateSwap
+//@ table getSwapOutReceiverStates set Admission State_SwapOutReceiver_CreateSwap
+//@ stepinv getSwapInReceiverStates Admission @C11 enabled: result == Event_ActionSucceeded ==> (ghost.pNewSwaps)
+//@ stepinv getSwapInReceiverStates Admission @C11 chain-enabled: result == Event_ActionSucceeded ==> ((swap.GetChain() == l_btc_chain ==> services.liquidEnabled) && (swap.GetChain() == btc_chain ==> services.bitcoinEnabled))
+//@ stepinv getSwapInReceiverStates Admission @C11 version: result == Event_ActionSucceeded ==> (swap.GetProtocolVersion() == 7)
+//@ stepinv getSwapInReceiverStates Admission @C11 minimum: result == Event_ActionSucceeded ==> (old(swap.GetAmount())*1000 >= ghost.pMinMsat)
+//@ stepinv getSwapInReceiverStates Admission @C11 amount-kept: result == Event_ActionSucceeded ==> (swap.GetAmount() == old(swap.GetAmount()))
+//@ stepinv getSwapInReceiverStates Admission @C11 minimum-exact: result == Event_ActionSucceeded ==> (swap.GetAmount() <= 9223372036854775)
+//@ stepinv getSwapInReceiverStates Admission @C11 allowlisted: result == Event_ActionSucceeded ==> (uf("peerAllowed", true, swap.PeerNodeId) && !uf("peerSuspicious", true, swap.PeerNodeId))
+//@ stepinv getSwapInReceiverStates Admission @C11 own-chain: result == Event_ActionSucceeded ==> ((swap.GetAsset() == "" || swap.GetAsset() == uf("walletAsset", "", swap.GetChain())) && (swap.GetNetwork() == "" || swap.GetNetwork() == uf("walletNetwork", "", swap.GetChain())))
+//@ stepinv getSwapOutReceiverStates Admission @C11 enabled: result == Event_ActionSucceeded ==> (ghost.pNewSwaps)
+//@ stepinv getSwapOutReceiverStates Admission @C11 chain-enabled: result == Event_ActionSucceeded ==> ((swap.GetChain() == l_btc_chain ==> services.liquidEnabled) && (swap.GetChain() == btc_chain ==> services.bitcoinEnabled))
+//@ stepinv getSwapOutReceiverStates Admission @C11 version: result == Event_ActionSucceeded ==> (swap.GetProtocolVersion() == 7)
+//@ stepinv getSwapOutReceiverStates Admission @C11 minimum: result == Event_ActionSucceeded ==> (old(swap.GetAmount())*1000 >= ghost.pMinMsat)
+//@ stepinv getSwapOutReceiverStates Admission @C11 amount-kept: result == Event_ActionSucceeded ==> (swap.GetAmount() == old(swap.GetAmount()))
+//@ stepinv getSwapOutReceiverStates Admission @C11 minimum-exact: result == Event_ActionSucceeded ==> (swap.GetAmount() <= 9223372036854775)
+//@ stepinv getSwapOutReceiverStates Admission @C11 allowlisted: result == Event_ActionSucceeded ==> (uf("peerAllowed", true, swap.PeerNodeId) && !uf("peerSuspicious", true, swap.PeerNodeId))
+//@ stepinv getSwapOutReceiverStates Admission @C11 own-chain: result == Event_ActionSucceeded ==> ((swap.GetAsset() == "" || swap.GetAsset() == uf("walletAsset", "", swap.GetChain())) && (swap.GetNetwork() == "" || swap.GetNetwork() == uf("walletNetwork", "", swap.GetChain())))
+//@ stepinv getSwapOutReceiverStates Admission @C11 funded: result == Event_ActionSucceeded ==> mi(ghost.walletBalance) >= mi(swap.GetAmount()) + mi(ghost.feeEstimate)
